@@ -956,7 +956,8 @@ def should_unwrap(obj: type) -> bool:
 
     This is useful for determining what type to use at run-time for coercion.
     """
-    return (not isliteral(obj)) and any(x(obj) for x in _UNWRAPPABLE)
+    # A `Literal[...]` has arguments but is no wrapper - a qualifier around one still is.
+    return tp.get_origin(obj) is not tp.Literal and any(x(obj) for x in _UNWRAPPABLE)
 
 
 @compat.cache
